@@ -260,6 +260,8 @@ def run_recover(case):
         b = fs.read_bytes(SRC)
         ptxns, pend, problems, recs_at = fsparse.parse(b)
         orig = {}
+        txn_at = {rec.pos: t for t in ptxns for rec in t.recs}
+        into_multi = {}
         for t in ptxns:
             recs = []
             for rec in t.recs:
@@ -270,6 +272,14 @@ def run_recover(case):
                 while x.data is None and x.back:
                     x = recs_at[x.back]
                     spans.append((x.pos, x.pos + 50 + x.plen))
+                    # the transaction the pointer leads into: when it
+                    # loses records of this oid, restore()'s hint lookup
+                    # picks another one (known finding)
+                    tt = txn_at.get(x.pos)
+                    if tt is not None and \
+                            sum(1 for y in tt.recs if y.oid == rec.oid) > 1:
+                        into_multi.setdefault((t.tid, rec.oid), []).append(
+                            (tt.pos, tt.end))
                 try:
                     data = fsparse.resolve(rec, recs_at)
                 except fsparse.Bad:
@@ -386,7 +396,11 @@ def run_recover(case):
                     continue
                 for x in clean:
                     if x not in gset:
-                        viol.append(('recover-changes-transaction',
+                        fam = ''
+                        if any(a < dend and e > dstart for a, e in
+                               into_multi.get((tid, x[0]), ())):
+                            fam = '/pointer-into-damaged-multi-record-txn'
+                        viol.append(('recover-changes-transaction' + fam,
                                      '%s: record %r of %r changed'
                                      % (label, x[0], tid)))
                         break
